@@ -5,9 +5,6 @@ CONSTANTS
     Pipes <- MCNoPipes
     MaxIn = 0
     InPlace = {}
-INVARIANTS
-    OutputsWellFormed
-    EdgeKindOK
 CONSTRAINT HW
 POSTCONDITION Accepted
 CHECK_DEADLOCK FALSE
